@@ -1,4 +1,4 @@
-import OrdModel.Proofs.IndexSchedMain
+import OrdModel.Proofs.IndexSchedSeq
 /-!
 # C12 — index content does not depend on how indexing was scheduled
 
@@ -85,6 +85,67 @@ theorem c12_committed_tables_wf (cfg : Cfg) (sched : List (List Block)) (hc : Ch
     simp only [OutRel] at h1
     exact ⟨h1.1.tinvC.nodup, h1.1.tinvC.rows⟩
 
+/-! ## `seq2sp` (SEQUENCE_NUMBER_TO_SATPOINT)
+
+`flushCache` rewrites the rows of the inscriptions listed by the flushed entries; the concrete
+layer flushes the accumulated special-outpoint entries last, the abstract layer flushes them
+after every block.  The two orders commit the same finite map exactly when no sequence number
+is listed twice — C04's invariant.  The theorems below take it as the hypothesis
+`SeqConsistentRun` (at every block boundary of the abstract run, `seq2sp` and the output lists
+say the same thing), which follows from `Insloc.InsPartitioned` (`c12_seqConsistent_of_c04`);
+C04 proves its per-transaction step and checks it on every block of every generated chain, its
+lift to all reachable states is open (notes/C04.md), hence `_partial`-style hypothesis here. -/
+
+/-- C04's invariant at every block boundary of the abstract run gives the hypothesis below. -/
+theorem c12_seqConsistent_of_c04 (cfg : Cfg) (chain : List Block) (hc : ChainCond chain)
+    (h : ∀ pre a, pre <+: chain → runBlocks cfg pre {} = .ok a → Insloc.InsPartitioned cfg a) :
+    SeqConsistentRun cfg chain {} :=
+  SeqConsistentRun.of_insPartitioned cfg chain hc.chainOK h
+
+/-- One commit batch (any number of blocks, from a committed store): if `seq2sp` agreed at the
+previous commit and the abstract states at the two ends of the batch are consistent, `seq2sp`
+agrees as a finite map after the commit. -/
+theorem c12_batch_seq2sp (cfg : Cfg) (bs : List Block) (seen : List Txid) (s : Store) (a : State)
+    (hS : SRel cfg seen s a) (h0 : s.cache = []) (hc : ChainOK seen bs)
+    (hQ : ∀ k, AL.get s.st.seq2sp k = AL.get a.seq2sp k)
+    (s' : Store) (a' : State) (hC : runBatch cfg bs s = .ok s') (hA : runBlocks cfg bs a = .ok a')
+    (hca : SeqConsistent a) (hca' : SeqConsistent a') :
+    ∀ k, AL.get s'.st.seq2sp k = AL.get a'.seq2sp k :=
+  batch_seq2sp cfg bs seen s a hS h0 hc hQ s' a' hC hA hca hca'
+
+/-- Every schedule refines the abstract run, on the whole content. -/
+theorem c12_schedule_refines_blocks (cfg : Cfg) (sched : List (List Block))
+    (hc : ChainCond sched.flatten) (hseq : SeqConsistentRun cfg sched.flatten {}) :
+    OutRel (fun s a => Equiv s.st a ∧ s.cache = [])
+      (runBatches cfg sched {}) (runBlocks cfg sched.flatten {}) := by
+  have h1 := c12_schedule_refines_blocks_partial cfg sched hc
+  cases hC : runBatches cfg sched {} with
+  | panic e => rw [hC] at h1; cases hA : runBlocks cfg sched.flatten {} <;> rw [hA] at h1 <;> simp_all [OutRel]
+  | err e => rw [hC] at h1; cases hA : runBlocks cfg sched.flatten {} <;> rw [hA] at h1 <;> simp_all [OutRel]
+  | ok s =>
+    cases hA : runBlocks cfg sched.flatten {} with
+    | panic e => rw [hC, hA] at h1; exact absurd h1 (by simp [OutRel])
+    | err e => rw [hC, hA] at h1; exact absurd h1 (by simp [OutRel])
+    | ok a =>
+      rw [hC, hA] at h1
+      simp only [OutRel] at h1 ⊢
+      have hq := runBatches_seq2sp cfg sched [] {} {} (SRel.init cfg) rfl hc.chainOK (fun _ => rfl) hseq s a hC hA
+      exact ⟨⟨h1.1.core, h1.1.utxo, hq, h1.1.script2out⟩, h1.2⟩
+
+/-- **C12**: for every configuration, every chain (`ChainCond`) and every two ways of cutting
+it into commit batches, both runs end with the same panic / the same error, or both succeed
+with the same committed content (`Equiv`: `utxo`, `seq2sp`, `script2out` as finite maps / set,
+every other table, counter and statistic syntactically). -/
+theorem c12_schedule_independent (cfg : Cfg) (sched₁ sched₂ : List (List Block))
+    (hflat : sched₁.flatten = sched₂.flatten) (hc : ChainCond sched₁.flatten)
+    (hseq : SeqConsistentRun cfg sched₁.flatten {}) :
+    OutRel (fun s₁ s₂ => Equiv s₁.st s₂.st ∧ s₁.cache = [] ∧ s₂.cache = [])
+      (runBatches cfg sched₁ {}) (runBatches cfg sched₂ {}) := by
+  have h1 := c12_schedule_refines_blocks cfg sched₁ hc hseq
+  have h2 := c12_schedule_refines_blocks cfg sched₂ (hflat ▸ hc) (hflat ▸ hseq)
+  rw [← hflat] at h2
+  exact OutRel.trans_symm (fun _ _ _ ha hb => ⟨ha.1.trans hb.1.symm, ha.2, hb.2⟩) h1 h2
+
 /-! ## Duplicate txids: schedule independence fails
 
 Blocks 0 and 1 have the same coinbase transaction (txid 7) and block 2 spends `7:0`.  If
@@ -137,6 +198,37 @@ example : ChainCond [[exB0], [exB1, exB2]].flatten ∧
     utxoAt (runBatches dupCfg [[exB0], [exB1, exB2]] {}) ⟨5, 0⟩ =
       utxoAt (runBatches dupCfg [[exB0, exB1], [exB2]] {}) ⟨5, 0⟩ := by
   refine ⟨⟨by decide, by decide, by decide⟩, by decide, by decide, by decide⟩
+
+/-! An inscription revealed in block 1 (output `3:0`), moved in block 2 (to `5:0`) and spent to
+fees in block 3 (the coinbase pays out less than the subsidy, so it lands on the null outpoint):
+with blocks 1–3 in one batch the inscribed entries are created and spent inside the cache. -/
+
+def insCfg : Cfg :=
+  { indexSats := false, indexAddresses := true, indexTransactions := false, indexInscriptions := true, indexRunes := false, firstInscriptionHeight := 0, jubileeHeight := 0, firstRuneHeight := 0 }
+def insEnv : Envelope :=
+  { input := 0, offset := 0, unrecognizedEven := false, duplicateField := false, incompleteField := false, pushnum := false, stutter := false, hidden := false, gallery := false, pointerField := false, pointer := none, parents := [] }
+def insReveal : Tx :=
+  { txid := 3, inputs := [{ prev := ⟨1, 0⟩, taproot := true, confHeight := some 0, pushes := [] }], outputs := [dupOut [9]], envelopes := [insEnv], artifact := none, size := 0 }
+def insFee : Tx :=
+  { txid := 7, inputs := [{ prev := ⟨5, 0⟩, taproot := false, confHeight := some 2, pushes := [] }], outputs := [], envelopes := [], artifact := none, size := 0 }
+def insB0 : Block := { height := 0, time := 0, hash := 100, minimumRune := 0, txs := [exT 1 [1]] }
+def insB1 : Block := { height := 1, time := 0, hash := 101, minimumRune := 0, txs := [exT 2 [2], insReveal] }
+def insB2 : Block := { height := 2, time := 0, hash := 102, minimumRune := 0, txs := [exT 4 [4], exSpend 5 ⟨3, 0⟩] }
+def insB3 : Block := { height := 3, time := 0, hash := 103, minimumRune := 0, txs := [exT 6 [6], insFee] }
+
+def seqAt (r : Outcome Store) (seq : Nat) : Option (Option SatPoint) :=
+  match r with
+  | .ok s => some (AL.get s.st.seq2sp seq)
+  | _ => none
+
+/-- `ChainCond` and `SeqConsistentRun` are satisfiable together on a chain with an inscription
+that is created, moved and lost inside one commit batch; the two schedules succeed and commit
+the inscription at the null outpoint -/
+example : ChainCond [[insB0], [insB1, insB2, insB3]].flatten ∧
+    SeqConsistentRun insCfg [[insB0], [insB1, insB2, insB3]].flatten {} ∧
+    seqAt (runBatches insCfg [[insB0], [insB1, insB2, insB3]] {}) 0 = some (some ⟨OutPoint.null, 0⟩) ∧
+    seqAt (runBatches insCfg [[insB0, insB1], [insB2], [insB3]] {}) 0 = some (some ⟨OutPoint.null, 0⟩) := by
+  refine ⟨⟨by decide, by decide, by decide⟩, seqRunB_sound _ _ _ (by decide), by decide, by decide⟩
 
 /-- the duplicate-txid chain is excluded by `ChainCond` (and only by its first clause) -/
 example : ¬ (chainTxids [dupB0, dupB1, dupB2]).Nodup := by decide
